@@ -10,9 +10,10 @@ EXPLANATION = (
     "the deserialised value; build_snapshot serialises the state itself; (d) storage contract shape (openraft RaftLogReader/"
     "RaftStorage::get_log_state): when the log is empty after a purge, last_log_id must fall back to last_purged_log_id, "
     "so the value stored in LogState.last_log_id has to depend on the purged id in each store."
+    " Serde attribute symmetry on CoordinatorState / ClusterCommand and every nested type (cfg raft)."
 )
 DECIDED = ["apply_command is deterministic (no nondeterministic effect reachable)", "every command variant is applied explicitly", "snapshot covers the whole replicated state",
-           "get_log_state reports last_log_id >= last_purged_log_id by construction in both stores"]
+           "get_log_state reports last_log_id >= last_purged_log_id by construction in both stores", "snapshot and log entry types round-trip field by field through serde"]
 NOT_DECIDED = ["openraft's own algorithm", "HashMap iteration order inside apply_command arms (no arm iterates to produce order-dependent state: not decided)", "the rest of the storage conformance suite"]
 
 SM = "varpulis_cluster::raft::state_machine::"
